@@ -12,7 +12,10 @@ import warnings
 
 import numpy as np
 
+import os
+
 from harness.core import run_tlc, require_clean, MachineryError
+from harness import tracecheck
 
 LEN = 64
 PAIRS = {'AA': ('A', 'A'), 'AB': ('A', 'B'), 'BB': ('B', 'B')}
@@ -235,3 +238,11 @@ def run(ctx):
             break
     ctx.traces += m
     ctx.stage('replay.solved', solved_and_judged=m, tried=tried)
+    # direction B: every evaluation of the cost function during the solves of the repository's tests and of the drivers
+    os.environ['VERIF_TRACE_COST'] = '1'
+    try:
+        ev1, i1 = tracecheck.record_pytest(ctx, ['PRISM_test.py', 'CalcPRISM_test.py'], 'suite_cost')
+        ev2, i2 = tracecheck.record_driver(ctx, 'prism_driver', [ctx.seed, 'calc', 2 if thorough else 1], 'driver_cost')
+    finally:
+        del os.environ['VERIF_TRACE_COST']
+    tracecheck.cost_traces(ctx, [('suite', ev1, i1), ('driver', ev2, i2)])
